@@ -573,7 +573,7 @@ def html_expected(evs, escape_urls=True):
     return out
 
 
-def html_compare(exp, got, allow_ws):
+def html_compare(exp, got, allow_ws, escape_urls=True):
     """None or a description; attribute values compared modulo boolean minimisation and URI escaping"""
     def norm(lst):
         res = []
@@ -602,7 +602,7 @@ def html_compare(exp, got, allow_ws):
                     if (x[1], an) not in HTML4_BOOLEAN or av.lower() != an:
                         return "attribute %s minimised but it is not a boolean attribute with its own name as value: %s vs %s" % (an, x, y)
                 elif bv != av:
-                    if not ((x[1], an) in HTML4_URI and urllib.parse.unquote(bv) == av):
+                    if not (escape_urls and (x[1], an) in HTML4_URI and urllib.parse.unquote(bv) == av):
                         return "attribute value differs: %s=%r vs %r" % (an, av, bv)
         elif x[0] == "T":
             if (x[1] if not allow_ws else x[1].strip(" \t\r\n")) != (y[1] if not allow_ws else y[1].strip(" \t\r\n")):
@@ -759,15 +759,7 @@ def run_h(ctx, n, impl, model, html_names):
         except Exception as ex:
             orc.append({"case": line, "base": "", "what": "html.parser failed: %s" % ex, "known": None})
             continue
-        what = html_compare(html_expected(evs), p.out, ind >= 0)
-        has_head = any(e[0] == "S" and s_of(e[1]).lower() == "head" for e in evs)
-        meta_there = re.search(r"<META http-equiv=\"Content-Type\"", txt) is not None
-        if what is None and has_head and ometa == 1 and meta_there:
-            what = "META tag written although omitting it was requested"
-        if what is None and has_head and ometa == 0 and not meta_there:
-            what = "no META tag in HEAD although it was not omitted"
-        if what is None and esc == 0 and re.search(r"%[0-9A-F]{2}", txt):
-            what = "URI attribute escaped although escaping was switched off"
+        what = h_verdict(evs, txt, ind, esc, ometa)
         if what:
             orc.append({"case": line, "base": "", "what": what + "\n#     output: " + txt[:400].replace("\n", "\\n"), "known": None})
     return corr, orc
@@ -993,22 +985,24 @@ def run_z_methods(ctx, n, impl):
             p = HCollect()
             p.feed(txt)
             p.close()
-            what = html_compare(html_expected(evs), p.out, True)
+            esc_off = mode == "explicit" and api[3] == "0"
+            what = html_compare(html_expected(evs), p.out, True, escape_urls=not esc_off)
+            if what and esc_off and html_compare(html_expected(evs), p.out, True, True) is None:
+                what = "URI attribute escaped although setEscapeURLs(no): " + what
             has_head = any(e[0] == "S" and s_of(e[1]).lower() == "head" for e in evs)
             meta_there = "<META http-equiv=\"Content-Type\"" in txt
+            ignored_escape = mode != "explicit" and api[3] == "0" and html_compare(html_expected(evs), p.out, True, False) is not None
             if what is None and txt.startswith("<?xml"):
                 what = "html output method (explicit or by the html root rule) but an XML declaration was written"
             # when HTML is chosen by the root-element rule, XSLTEngineImpl::flushPending builds the FormatterToHTML with
             # the default escapeURLs/omitMETATag: the API overrides are not consulted (noted, not a C08 failure:
             # the content is the same either way)
-            if mode != "explicit" and has_head and ((api[2] == "1" and meta_there) or (api[3] == "0" and re.search(r"%[0-9A-F]{2}", txt))):
+            if mode != "explicit" and ((has_head and api[2] == "1" and meta_there) or ignored_escape):
                 ctx.notes["html_root_rule_ignores_setOmitMETATag_setEscapeURLs"] = ctx.notes.get("html_root_rule_ignores_setOmitMETATag_setEscapeURLs", 0) + 1
             if what is None and mode == "explicit" and has_head and api[2] == "1" and meta_there:
                 what = "META tag written although setOmitMETATag(yes)"
             if what is None and has_head and api[2] in ("-", "0") and not meta_there:
                 what = "no META tag in HEAD"
-            if what is None and mode == "explicit" and api[3] == "0" and re.search(r"%[0-9A-F]{2}", txt):
-                what = "URI attribute escaped although setEscapeURLs(no)"
             if what:
                 orc.append({"case": line, "base": "", "what": what + "\n#     output: " + txt[:300].replace("\n", "\\n"), "known": None})
     return orc
@@ -1320,15 +1314,15 @@ def h_verdict(evs, txt, ind, esc, ometa, cid=""):
     p = HCollect()
     p.feed(txt)
     p.close()
-    what = html_compare(html_expected(evs), p.out, ind >= 0)
+    what = html_compare(html_expected(evs), p.out, ind >= 0, escape_urls=(esc != 0))
+    if what and esc == 0 and html_compare(html_expected(evs), p.out, ind >= 0, True) is None:
+        what = "URI attribute escaped although escaping was switched off: " + what
     has_head = any(e[0] == "S" and s_of(e[1]).lower() == "head" for e in evs)
     meta_there = re.search(r"<META http-equiv=\"Content-Type\"", txt) is not None
     if what is None and has_head and ometa == 1 and meta_there:
         what = "META tag written although omitting it was requested"
     if what is None and has_head and ometa == 0 and not meta_there:
         what = "no META tag in HEAD although it was not omitted"
-    if what is None and esc == 0 and re.search(r"%[0-9A-F]{2}", txt):
-        what = "URI attribute escaped although escaping was switched off"
     return what
 
 
